@@ -134,6 +134,8 @@ def _body(case, mix, pv, comp, t, perm, prec, mdl, w, classes):
                     k, model.permeate_composition[k].p, yk)
             wk = model.feed_compositions[k]
             require(wk.type == "weight", "process feed composition of type %r", wk.type)
+            if not (0.0 < yk < 1.0 and 0.0 < wk.p < 1.0):
+                continue  # separation factor undefined at a pure feed / permeate
             sfk = sep_factor(yk, wk.p)
             require(relerr(model.get_separation_factor[k], sfk) <= 1e-9, "step %d separation factor %r != %r", k,
                     float(model.get_separation_factor[k]), sfk)
